@@ -399,6 +399,8 @@ func errorBranchRule(c *core.Ctx, s *Stage, errIdx int) {
 				case res == 0:
 					ok = false
 					c.Fail("error-branch", s.Name, ct.Pos(), "the result of catch is not tested")
+				case res > 0 && p.To == nil && factsOf(p).done:
+					// went on, and then saw the context done (a poll on the way to the next element): leaves as any stage may
 				case res > 0 && p.To == nil:
 					ok = false
 					c.Fail("error-branch", s.Name, ct.Pos(), "catch returned true (continue) but the stage exits:\n%s", p)
